@@ -277,6 +277,13 @@ func (e *Engine) AddSpecFile(sf *SpecFile) error {
 			e.specFuncs["."+s.Name] = s
 		}
 	}
+	for _, n := range sf.Opaque {
+		if f := e.specFuncs[sf.PkgPath+"."+n]; f != nil {
+			f.Opaque = true
+		} else {
+			return fmt.Errorf("%s: opaque: unknown spec func %s", sf.Path, n)
+		}
+	}
 	e.lemmas = append(e.lemmas, sf.Lemmas...)
 	e.axioms = append(e.axioms, sf.Axioms...)
 	for _, p := range sf.Pure {
@@ -428,6 +435,21 @@ func (e *Engine) VerifyFunc(c *Contract) (res *FuncResult) {
 		env0.vars["recv"] = args[0]
 	}
 	ex.bindLets(env0, c)
+	for _, ln := range c.UseLemmas {
+		var lm *Lemma
+		for _, l := range e.lemmas {
+			if l.Name == ln && (l.PkgPath == c.PkgPath || l.PkgPath == "") {
+				lm = l
+			}
+		}
+		if lm == nil {
+			res.Err = fmt.Errorf("contract error: %s: use lemma %s: no such lemma", c.Where, ln)
+			return
+		}
+		lenv := ex.newEnv(lm.PkgPath, st)
+		ex.assumeRaw(ex.evalSpec(lenv, lm.E).S())
+		ex.note("lemma", ln)
+	}
 	for _, rq := range c.Requires {
 		ex.assume(st, ex.evalBool(env0, rq))
 	}
